@@ -276,11 +276,55 @@ func (n *node) stateString() string {
 		r, i := ucon.GetInfoFromHash(c)
 		ws = append(ws, fmt.Sprintf("%d.%d", r, i))
 	}
-	return fmt.Sprintf("v=%s/%d/%d/%s%s%s%s%s/%s/%s/%s;db=%s/%d/%d/%d/%d/%d;rec=%s/%s/%s/%s/%s;w=%s",
+	hexDec := func(h string) string {
+		v, _ := strconv.ParseUint(h, 16, 64)
+		return dec(v)
+	}
+	type voRow struct {
+		h uint64
+		s string
+	}
+	var vo []voRow
+	for _, l := range s.VoteOver {
+		p := strings.SplitN(l, ":", 3)
+		hv, _ := strconv.ParseUint(p[0], 16, 64)
+		vo = append(vo, voRow{hv, hexDec(p[0]) + ":" + p[1] + ":" + p[2]})
+	}
+	sort.Slice(vo, func(a, b int) bool { return vo[a].h < vo[b].h })
+	var vos []string
+	for _, r := range vo {
+		vos = append(vos, r.s)
+	}
+	type ctRow struct {
+		tag  string
+		k, h uint64
+		s    string
+	}
+	var ct []ctRow
+	for _, l := range s.Counts {
+		f := strings.Fields(l)
+		hv, _ := strconv.ParseUint(f[2], 16, 64)
+		ct = append(ct, ctRow{f[0], u(f[1]), hv, fmt.Sprintf("%s %s %d %s %s", f[0], f[1], hv, f[3], f[4])})
+	}
+	sort.Slice(ct, func(a, b int) bool {
+		if ct[a].tag != ct[b].tag {
+			return ct[a].tag < ct[b].tag
+		}
+		if ct[a].k != ct[b].k {
+			return ct[a].k < ct[b].k
+		}
+		return ct[a].h < ct[b].h
+	})
+	var cts []string
+	for _, r := range ct {
+		cts = append(cts, r.s)
+	}
+	return fmt.Sprintf("v=%s/%d/%d/%s%s%s%s%s/%s/%s/%s;db=%s/%d/%d/%d/%d/%d;rec=%s/%s/%s/%s/%s;w=%s;vo=%s;ct=%s",
 		rs, s.RoundIndex, s.Step, b(s.Precommitted), b(s.Committed), b(s.SentChangeEvent), b(s.Certificated), b(s.ShouldCert),
 		m(s.NextMarked), m(s.CurMarked), m(s.NextVoted),
 		dr, s.DBRoundIndex, s.DBMarks[ucon.Prevote], s.DBMarks[ucon.Precommit], s.DBMarks[ucon.NextIndex], s.DBMarks[ucon.Certificate],
-		rec("prevote"), rec("precommit"), rec("certificate"), rec("next1"), rec("next2"), strings.Join(ws, ","))
+		rec("prevote"), rec("precommit"), rec("certificate"), rec("next1"), rec("next2"), strings.Join(ws, ","),
+		strings.Join(vos, ","), strings.Join(cts, ","))
 }
 
 // exec runs one op on the real code; resp is "" for ops that only change the environment.
@@ -589,7 +633,7 @@ func (g *gen) voteMsg(kind uint64, mal bool) {
 		case 4:
 			sortErr = 1
 		case 5:
-			nilVote, status = 1, 2
+			nilVote, status = 1, uint64([]int{2, 2, 2, 3, 1}[g.r.Intn(5)])
 		case 6:
 			w = uint64(1<<32 - 1 - g.r.Intn(3))
 		case 7:
@@ -734,6 +778,89 @@ func genHistory(r *vh.RNG, maxOps int, malformed bool) []op {
 	return g.ops
 }
 
+// genServerHistory: the contexts are not invented by the generator but produced by the REAL Server
+// (StartNewRound / NextRound / processTimeout / processStepEvent through the hook VerifServer) from a script of
+// step ticks, timeouts, RoundIndexChangeEvents (fresh and stale) and restarts; every ContextChangeEvent the Server posts
+// becomes an X op. lowered reports whether the Server moved its round index backwards (F-C02c).
+func genServerHistory(r *vh.RNG, maxOps int) (ops []op, lowered bool) {
+	initKeys()
+	g := &gen{r: r}
+	scratch := ucon.NewVerifVoter(youdb.NewMemDatabase(), keys[7], &ucon.VerifEnv{})
+	head := uint64(r.Range(1, 6))
+	if r.Chance(25) {
+		head = 32768*uint64(r.Range(1, 2)) - 1 // the new round is a certificate round
+	}
+	g.round = new(big.Int).SetUint64(head + 1)
+	g.hashes = []uint64{uint64(r.Range(1, 5)), uint64(r.Range(1, 5))}
+	g.T = uint64(r.Range(2, 9))
+	sv := ucon.NewVerifServer(scratch, head)
+	var lastIdx uint32
+	emit := func(cs []ucon.ContextChangeEvent) {
+		for _, c := range cs {
+			cert := "0"
+			if c.Certificate {
+				cert = "1"
+			}
+			rs := "0"
+			if c.Round != nil {
+				rs = c.Round.String()
+			}
+			g.add("X", rs, dec(uint64(c.RoundIndex)), dec(uint64(c.Step)), cert)
+			if c.RoundIndex < lastIdx {
+				lowered = true
+			}
+			lastIdx = c.RoundIndex
+			g.index = uint64(c.RoundIndex)
+		}
+	}
+	g.add("EP", "1", dec(g.hashes[0]), "1")
+	for _, k := range []uint64{2, 3, 4, 5} {
+		if r.Chance(50) {
+			g.seatOp(k)
+		}
+	}
+	cs, _ := sv.StartNewRound(true)
+	emit(cs)
+	step := uint32(0)
+	for len(g.ops) < maxOps {
+		switch r.Intn(12) {
+		case 0, 1, 2, 3: // step timer
+			step++
+			emit(sv.Step(step))
+		case 4: // own or foreign RoundIndexChangeEvent for the current index
+			_, ri, _ := sv.Indices()
+			emit(sv.NextRound(g.round, ri, common.Hash{}, common.Hash{}))
+			step = 0
+		case 5: // stale RoundIndexChangeEvent of an earlier index
+			_, ri, _ := sv.Indices()
+			if ri > 1 {
+				emit(sv.NextRound(g.round, uint32(r.Range(1, int(ri)-1)), common.Hash{}, common.Hash{}))
+				step = 0
+			}
+		case 6: // timeout, possibly with a larger index seen from the others
+			_, ri, _ := sv.Indices()
+			emit(sv.Timeout(g.round, ri+uint32(r.Intn(3))))
+			step = 0
+		case 7: // crash + restart: a new Server begins the round again at index 1
+			g.add("R")
+			sv = ucon.NewVerifServer(scratch, head)
+			lastIdx = 0
+			if r.Chance(70) {
+				g.add("EP", "1", g.hash(), "1")
+			}
+			cs, _ := sv.StartNewRound(true)
+			emit(cs)
+			step = 0
+		case 8:
+			g.add("EP", "1", g.hash(), dec(uint64(r.Range(1, 3))))
+		default: // received votes in the current context
+			kind := uint64([]int{2, 2, 3, 3, 4, 5}[r.Intn(6)])
+			g.voteMsg(kind, false)
+		}
+	}
+	return g.ops, lowered
+}
+
 // ---- run -----------------------------------------------------------------------------------------------------------
 
 func describe(v verdict) (kind, what string) {
@@ -856,10 +983,40 @@ func run(c *vh.Ctx) error {
 			}
 		}
 	}
+	// server-driven stream: contexts come from the real Server's index arithmetic
+	nServer := c.N(800, 8000)
+	loweredCases := 0
+	for ci := 0; ci < nServer; ci++ {
+		r := c.R.Fork()
+		ops, lowered := genServerHistory(r, r.Range(10, 40))
+		v := runCase(drv, ops)
+		res.Count(strings.Join(lines(ops), "\n"), v.nontrivial)
+		res.TracesVsImpl++
+		res.Dist("stream-server-driven")
+		if lowered {
+			loweredCases++
+			res.Dist("server-lowered-its-round-index")
+		}
+		if ci == 0 {
+			res.Sample(map[string]interface{}{"server_driven_ops": lines(ops), "go": v.goResp})
+		}
+		if v.fails() {
+			if v.oracle != "" {
+				oracleFailures++
+			} else {
+				failures++
+			}
+			if oracleFailures+failures <= 6 {
+				reportFailure(c, drv, fmt.Sprintf("server-case-%d", ci), ops)
+			}
+		}
+	}
+	res.Extra["server_driven_histories"] = nServer
+	res.Extra["server_lowered_round_index_in"] = loweredCases
 	res.Partial = append(res.Partial,
 		"event-mux asynchrony: the order of the events posted by one call is not observable (AsyncPost); compared as a sorted list",
 		"BLS vote signing disabled in the harness (secp256k1 branch); signatures, sortition and look-back stake are scripted collaborators",
-		"the Server's index logic (StartNewRound/NextRound/processTimeout) is over-approximated: every sequence of ContextChangeEvents is allowed, including lowered rounds and indices")
+		"the Server's index logic (StartNewRound/NextRound/processTimeout) is not modelled; the model allows every sequence of ContextChangeEvents (over-approximation), and a separate stream feeds the Voter the contexts the REAL Server produces, stale RoundIndexChangeEvents included")
 	return nil
 }
 
